@@ -517,9 +517,11 @@ class Interp:
         for f in s.pc:
             sol.add(f)
         sol.add(c)
-        # only the path condition and cheap (quantifier-free linear) facts are used to prune
-        for f in getattr(s, "prune_facts", []):
-            sol.add(f)
+        # the path condition and the basic hypotheses (tier 0/1 facts: harness assumptions, input
+        # invariants, cut facts) are used to prune; 'unknown' keeps the path
+        for f in s.facts:
+            if T.TIERS.get(f.get_id(), 2) <= 1:
+                sol.add(f)
         r = sol.check()
         return r != z3.unsat
 
